@@ -58,6 +58,7 @@ def run_job(job):
 
     stubs.load_repo()
     stubs.install_uf_cbc()
+    stubs.install_text_bypass()
     from bec2format import bf3file as bf
     from bec2format.bytes_reader import BytesReader
 
@@ -73,17 +74,17 @@ def run_job(job):
         key = sym.sym_bytes("key", 16) if keymode == "sym" else bf.DEFAULT_SESSION_KEY
         vals["key"] = key
         f = build_file(bf, shape, vals)
+        carrier = stubs.Carrier()
         if keymode == "sym":
-            raw = bf.BF3_FILE_SIG + f.to_binary(len(bf.BF3_FILE_SIG), key)
+            f.write_file(carrier, key)
         else:
-            raw = bf.BF3_FILE_SIG + f.to_binary(len(bf.BF3_FILE_SIG))
+            f.write_file(carrier)
         ok = True
         for check_cmac in (True, False):
-            rdr = BytesReader(raw, "BF3 files Binary Data")
-            if rdr.read(len(bf.BF3_FILE_SIG)) != bf.BF3_FILE_SIG:
-                ok = False
-                break
-            g = bf.Bf3File.from_binary(rdr, {}, check_cmac, key)
+            if keymode == "sym":
+                g = bf.Bf3File.read_file(carrier, check_cmac, key)
+            else:
+                g = bf.Bf3File.read_file(carrier, check_cmac)
             if len(g.components) != len(shape):
                 ok = False
                 break
